@@ -167,6 +167,8 @@ def run_impl(case, h):
     cuts = [int(len(inc) * q) for q in case.get('chunks', [0.4, 0.75])]
     prev = 0
     for c in cuts + [len(inc)]:
+        if prev < len(inc):
+            integ.predict(inc.iloc[prev])      # look-ahead of the next increment: must change nothing
         integ.integrate(inc.iloc[prev:c])
         prev = c
     m = n + 1
@@ -258,6 +260,8 @@ def kernel_step(y, dt, th, dv):
 def fd_case(rng):
     from scipy.spatial.transform import Rotation
     lat, lon, alt = rng.uniform(-85, 85), rng.uniform(-180, 180), rng.uniform(-500, 20000)
+    if rng.random() < 0.25:                                # the edges of the property's latitude domain and the equator
+        lat = rng.choice([-85.0, -84.9, -84.5, -84.3, 84.3, 84.5, 84.9, 85.0, 0.0, -1e-3, 1e-3])
     speed = rng.uniform(0, 300)
     d = np.array([rng.gauss(0, 1), rng.gauss(0, 1), rng.gauss(0, 1)])
     v = speed * d / np.linalg.norm(d)
